@@ -16,9 +16,14 @@ package modules
 
 // ---- C06: a panic in managed code is contained, reported and leaves the accounting intact
 
+// building the error out of a panic value runs inside the recovery code of every managed
+// execution, so it must not panic itself - for every panic value: methods of the value
+// (Error, String, ...) are foreign code that may panic and must not be called unguarded
+// (the formatting functions of fmt guard such calls themselves)
 //@ func (*Module).NewPanicError
 //@   requires m != nil
 //@   modifies *
+//@   maypanic invoke.Error invoke.String invoke.GoString invoke.Format dynamic
 //@   ensures r0 != nil && fresh(r0) && r0.PanicValue == panicValue && r0.Severity == "panic" && r0.TaskName == taskName && r0.TaskType == taskType
 
 //@ func (*ModuleError).Report
@@ -77,10 +82,10 @@ package modules
 //@   nopanic off
 //@   modifies *
 //@   ghost var step int = 0
-//@   at call (*AtomicBool).Set#0 assert arg0 == m.ctrlFuncRunning && step == 0
-//@   at call (*AtomicBool).Set#0 ghost step = 1
-//@   at call (*AtomicBool).Set#1 assert arg0 == m.stopFlag && step == 1
-//@   at call (*AtomicBool).Set#1 ghost step = 2
+// (the lifecycle-routine mark is set before the stop flag is raised: an item that finishes in
+// between must not find 'stopping, nothing running' and declare the stop complete)
+//@   at call (*AtomicBool).Set assert (arg0 == m.ctrlFuncRunning && step == 0) || (arg0 == m.stopFlag && step == 1) || step >= 2
+//@   at call (*AtomicBool).Set ghost step = (step < 2 ? step + 1 : step)
 //@   at call dynamic#0 assert step == 2
 //@   at call dynamic#0 ghost step = 3
 //@   at call (*Module).startCtrlFn assert step == 3 && arg2 == m.stopFn
@@ -288,6 +293,15 @@ package modules
 //@   at call (*Module).checkIfStopComplete assert net == 0 && arg0 == t.module
 //@   at call (*Module).checkIfStopComplete ghost chk = chk + 1
 //@   at call context.WithCancel assert arg0 == t.module.Ctx
+// the end of the run is signalled (the task context cancelled, which lets the queue handler start
+// the next task) only after the executing mark was cleared: a task that re-queued itself from
+// inside its function must not be found 'still executing' and dropped
+// (the first dynamic call is the task function itself, the later one the cancel function)
+//@   ghost var ran int = 0
+//@   ghost var cleared bool = false
+//@   at store executing ghost cleared = !value
+//@   at call dynamic assert ran == 0 || cleared
+//@   at call dynamic ghost ran = ran + 1
 //@   ensures net == 0 && chk == 1
 //@   ensures panicked ==> reported
 //@   at return assert !t.executing
